@@ -138,6 +138,7 @@ structure Hist where
   share : List (Nat × String) := []
   bodyLeaks : List (Nat × String × Nat) := []
   finalKeys : Option (List Str) := none
+  concurrent : Bool := false   -- requests issued at one instant run concurrently
   frames : List (Nat × Nat × String × Header) := []   -- (exchange, call, cl | chunked | close, trailer section sent)
   trailers : List (Nat × Header) := []                 -- trailer fields the caller saw after reading the body
   fatal : Option String := none
@@ -215,6 +216,7 @@ def parseLine (h : Hist) (line : String) : Hist :=
   | ["O", "OWN", n, "changed", _] => { h with own := toNat n :: h.own }
   | ["I", "FRAME", n, k, fr, tr] => { h with frames := (toNat n, toNat k, fr, parseHdrs tr) :: h.frames }
   | ["O", "TRAILER", n, tr] => { h with trailers := (toNat n, parseHdrs tr) :: h.trailers }
+  | ["I", "CONC"] => { h with concurrent := true }
   | ["O", "KEYS", ks] => { h with finalKeys := some (if ks == "" then [] else (ks.splitOn ",").map unhex) }
   | ["O", "SHARE", n, what] => { h with share := (toNat n, what) :: h.share }
   | ["O", "FATAL", m] => { h with fatal := some (String.ofList (unhex m)) }
